@@ -536,16 +536,18 @@ func (c *Common) call(field string) (interface{}, error) {
 	return c.Xr.value(c.Xn, field, nil), nil
 }
 
-func (c *Common) Mi() (interface{}, error)   { return c.call("mi") }
+// The Go names of the method-backed fields differ from the GraphQL names by more than the first letter (mi - MI, mkid - MKid,
+// mkids - MKIDS, mnamed - MNamed): reflection finds members case-insensitively, not by capitalising the first letter.
+func (c *Common) MI() (interface{}, error)   { return c.call("mi") }
 func (c *Common) Meet() (interface{}, error) { return c.call("meet") }
-func (c *Common) Mkid() (interface{}, error) {
+func (c *Common) MKid() (interface{}, error) {
 	v, err := c.call("mkid")
 	if v == nil {
 		return nil, err
 	}
 	return c.Xr.fsb.rep(v.(*Node)), err
 }
-func (c *Common) Mkids() (interface{}, error) {
+func (c *Common) MKIDS() (interface{}, error) {
 	v, err := c.call("mkids")
 	if v == nil {
 		return nil, err
@@ -556,7 +558,7 @@ func (c *Common) Mkids() (interface{}, error) {
 	}
 	return c.Xr.fsb.as(l), err
 }
-func (c *Common) Mnamed() (interface{}, error) {
+func (c *Common) MNamed() (interface{}, error) {
 	v, err := c.call("mnamed")
 	if v == nil {
 		return nil, err
